@@ -207,6 +207,7 @@ class VSocket:
             return b""
         if kind == "reset":
             self.sim._note("recv_err", self.orig_fileno, errno.ECONNRESET)
+            self.was_reset = True             # the kernel has torn the connection down
             raise _oserr(errno.ECONNRESET)
         self.rx.popleft()                     # one-shot error
         self.sim._note("recv_err", self.orig_fileno, item[1])
@@ -236,6 +237,9 @@ class VSocket:
 
     def shutdown(self, how):
         self._check_open()
+        # as on Linux: shutdown() of a socket that is not connected (never was, or was reset by the peer) fails
+        if not self.connected or getattr(self, "was_reset", False):
+            raise _oserr(errno.ENOTCONN)
         self.opts["shutdown"] = how
 
     def close(self):
